@@ -18,13 +18,25 @@ P = {
         "eval_module": "Run.Eval_C04", "check_term": "check",
         "n_quick": 4000, "n_thorough": 60000, "findings": {},
     }],
-    "rule": "chains (1-8) of real authenticators (anonymous, unauthorized, basic_auth, jwt, oauth2_introspection, generic; remote "
-            "endpoint up/refusing/5xx/garbage; fallback flag from the prototype or a rule-level override) built by the real mechanism "
-            "and rule factories x requests over credential shapes (Authorization absent/other scheme/Basic{bad base64, 1 or 3 parts, "
-            "right/wrong pair}/Bearer token; token in query/body; session cookie/header; tokens = not-a-JWS variants or JWS with "
-            "unknown key/bad signature/failed assertion/no subject/valid, crossed with the introspection answer); observation = outcome "
-            "of every consulted authenticator + the composite's answer; non-trivial = chain of >= 2 whose first authenticator did not "
-            "accept (a continue/break decision was taken); distinct by hash of chain + request shapes",
+    "rule": "case = one rule + 1-3 requests sent through it with one real in-memory cache. Rule: chain (1-8) of real authenticators, one "
+            "prototype per step created by the real mechanism factory (anonymous, unauthorized, basic_auth incl. a password with ':', jwt, "
+            "oauth2_introspection, generic; endpoint answers / closes the connection / 5xx / not-JSON / no answer within the time limit / "
+            "'switchable' = behaviour given per request; jwks_endpoint|introspection_endpoint or metadata_endpoint (fixed URL in each of "
+            "those states, document without endpoint, URL templated with the token issuer); default or custom token sources; audience+scope "
+            "assertions in the prototype or as rule-level override; cache_ttl 0s/5m in the prototype or as rule-level override; "
+            "allow_fallback_on_error in the prototype x rule-level override true/false/none, with and without other rule-level settings), "
+            "assembled by the real rule factory without a default rule, with a default rule that must stay out, or AS the default rule. "
+            "Request: Authorization absent / other scheme (incl. lower-case, no space) / Basic {bad base64, 1 or 3 parts, right or wrong "
+            "pair} / Bearer token / 'Bearer' + blanks / two field lines in both orders; X-Token header; token in query (incl. blank) / body "
+            "(form, JSON, one-element array, twice, number); session cookie / header; tokens = not-a-JWS variants, JWS with array payload, "
+            "unknown key, bad signature (4 ways), failed issuer/time assertion, wrong audience/scope, no subject, valid - crossed with the "
+            "introspection answer; a later request repeats the previous one (tokens, sessions) with the switchable endpoints in another "
+            "state, or is fresh. Entry: compositeSubjectCreator.Execute directly | complete decision service | complete Envoy ext_authz "
+            "service (real rule executor, ruleImpl.Execute, header finalizer forwarding Subject.ID). Observation per request: per consulted "
+            "authenticator its mechanism id (position), IsFallbackOnErrorAllowed() of the real object, whether its cache lookup hit, outcome "
+            "class (accepted+subject | errors.Is ErrArgument | other error; the first sentinel found is recorded for the histogram only); the "
+            "composite's answer; status class + forwarded subject of the service. non-trivial = chain of >= 2 and for some request the first "
+            "authenticator did not accept (a continue/break decision was taken); distinct by hash of the case without token serials",
     "anchors": ["internal/rules/composite_subject_creator.go",
                 "internal/rules/mechanisms/authenticators/jwt_authenticator.go",
                 "internal/rules/mechanisms/authenticators/basic_auth_authenticator.go",
@@ -36,25 +48,46 @@ P = {
                 "internal/rules/mechanisms/authenticators/extractors/query_parameter_extract_strategy.go",
                 "internal/rules/mechanisms/authenticators/extractors/body_parameter_extract_strategy.go",
                 "internal/rules/mechanisms/authenticators/extractors/cookie_value_extract_strategy.go",
-                "internal/rules/mechanisms/authenticators/extractors/composite_extract_strategy.go"],
+                "internal/rules/mechanisms/authenticators/extractors/composite_extract_strategy.go",
+                "internal/rules/rule_impl.go", "internal/rules/rule_factory_impl.go",
+                "internal/handler/requestcontext/request_context.go",
+                "internal/handler/envoyextauth/grpcv3/request_context.go"],
     "trusted": ["type level: requests are abstracted to credential shapes; that a concrete request has the shape the driver says "
-                "(base64/JWS parsing, signature and assertion checks, the remote endpoints' answers) is by construction of the driver "
-                "and checked only through the observed outcomes",
-                "errors.Is over heimdall error chains is observed (driver classifies every returned error with errors.Is), not modelled "
-                "structurally; reading shows ErrArgument is produced only by the extractors and the jwt parse failure",
-                "request timeouts (ErrCommunicationTimeout) are not generated"],
-    "level_text": "Proof (kernel-checked, no axioms): compositeSubjectCreator.Execute, transcribed literally (including its idx < len test, "
-                  "proved vacuous), equals a declarative specification for chains of any length: the answer is that of the first "
-                  "authenticator that accepts or fails without (no-credentials or opt-in), later authenticators are consulted only if all "
-                  "earlier ones had no credentials or opted in, and a non-opted-in failure on presented credentials ends authentication "
-                  "whatever follows. Per authenticator type a classification table over credential shapes is proved to answer "
-                  "'no credentials' exactly when no credentials of the kind are present. Both levels are tied to the code by running "
-                  "~4000 (quick) / 60000 (thorough) chains of real authenticators against local JWKS/introspection/identity servers.",
+                "(base64/JWS parsing, signature and assertion checks, the remote endpoints' answers, 'two Authorization field lines = the "
+                "value joined with a comma') is by construction of the driver and checked only through the observed outcomes",
+                "errors.Is over heimdall error chains is observed (driver classifies every returned error with errors.Is(ErrArgument)), not "
+                "modelled structurally",
+                "cache: whether a lookup hits is observed per authenticator call and handed to the model as data (when entries are stored, "
+                "expire and are shared is C10/C11's subject); the model only says what a hit means for the outcome",
+                "the driver wraps each real authenticator of the rule's composite in a recording delegate (the composite field of the rule "
+                "object is found by its type, not by its name) and points a stub repository of the real rule executor at the rule; the time "
+                "limit of outgoing calls is http.DefaultTransport.ResponseHeaderTimeout = 80 ms, set by the driver"],
+    "level_text": "Proof (kernel-checked, no axioms). Chain level, chains of any length: compositeSubjectCreator.Execute, transcribed literally, "
+                  "equals a declarative specification (answer = first authenticator that accepts or fails without no-credentials/opt-in; "
+                  "later ones consulted only if all earlier ones had no credentials or opted in; a non-opted-in failure on presented "
+                  "credentials ends authentication whatever follows) and calls the authenticators as a prefix of the configured list in "
+                  "order. Type level, over a shape space of requests x six authenticator types x endpoint behaviour (incl. time limit, "
+                  "metadata discovery) x assertions x token sources x cache lookup x (prototype flag, rule-level flag): 'no credentials' is "
+                  "answered exactly when no credentials of the type's kind are presented; IsFallbackOnErrorAllowed() only when the step "
+                  "opts in; the three sentences of the statement for real chains, and explicitly for wrong password / bad signature / "
+                  "inactive token / failed assertion. The executable predicate applied to the implementation's observation is proved to "
+                  "imply the specification, and the model is proved to pass it. Tied to the code by ~4000 (quick) / 60000 (thorough) rules "
+                  "x 1-3 requests through real authenticators, real cache and local endpoints, 60% through the complete decision / Envoy "
+                  "ext_authz services observing status class and forwarded subject.",
     "level_note": "Chain level: full proof over abstract outcomes. Type level: proof over a finite shape space chosen by reading the six "
-                  "authenticators and five extractors; shapes outside it (e.g. custom source lists, metadata discovery, timeouts, caches "
-                  "enabled) are not covered. Design decisions of heimdall that the classification records and the property text allows: "
-                  "a bearer token that is not a parseable JWS (opaque, alg none, unknown alg) counts as 'no credentials' for jwt; a "
-                  "lower-case scheme ('basic', 'bearer') counts as another scheme; a body parameter present twice counts as absent.",
-    "assumptions": ["caches are off in the driver (no cache in the request context), so every authenticator call reaches its endpoint",
-                    "the driver wraps each real authenticator in a recording delegate inside the real composite to see which were consulted"],
+                  "authenticators and five extractors; not covered: generic payload/forward_headers/forward_cookies, JWK certificate "
+                  "validation and trust store, allowed_algorithms and validity_leeway overrides, endpoint auth/retry, http_cache of metadata "
+                  "endpoints (switched off in the driver), concurrent requests, proxy mode. Correspondence compares classes only "
+                  "(no-credentials | other failure | accepted subject; consulted positions; flags; answer class; service answer) - which "
+                  "non-argument sentinel a failure carries is C12's subject and only recorded. The property predicate is one-directional "
+                  "(credentials presented and not accepted => not a no-credentials answer; flag true => opted in); a stricter heimdall shows "
+                  "as a correspondence difference, not as a property failure. Readings of 'usable credentials of its kind' that follow the "
+                  "code and that the property text allows: for jwt a bearer token that is not a parseable JWS (empty, opaque, alg none, "
+                  "unknown alg) is none; a lower-case scheme ('basic', 'bearer') is another scheme; a body parameter present twice is absent; "
+                  "of several Authorization field lines the joined value counts (so the scheme of the first line decides). Observed, not "
+                  "C04's: a basic_auth password containing ':' can never be presented; generic caches any 2xx body and does not re-assert a "
+                  "cached payload's session lifespan.",
+    "assumptions": ["each case builds its own prototypes, rule and cache; requests of a case are sent one after the other (no concurrency)",
+                    "a call that hits the 80 ms time limit although its endpoint is not a slow one (busy machine) makes the driver run the "
+                    "case again (at most 3 times; counted in the histogram as rerun:unexpected-timeout)"],
 }
